@@ -39,9 +39,43 @@ Record cquirks := {
   q_doublestar_needs_dir : bool; (* a leading "**/" never stands for zero directories *)
   q_ti_shadows_config : bool;    (* the config's `ignore` list is dropped when .thailintignore exists *)
   q_json_ignore_unused : bool;   (* the `ignore` list of .thailint.json is never read *)
+  q_ignore_cwd_spelling : bool;  (* a target spelled relative to the working directory is matched against the ignore
+                                    patterns in that spelling, not as a project-relative path (still present) *)
 }.
-Definition ideal : cquirks := Build_cquirks false false false false false false false.
-Definition all_on : cquirks := Build_cquirks true true true true true true true.
+Definition ideal : cquirks := Build_cquirks false false false false false false false false.
+Definition all_on : cquirks := Build_cquirks true true true true true true true true.
+
+(* ------------------------------------------------------------------ how the target was spelled *)
+(* SAbs: absolute path (inside the project); SInside c: relative to a working directory that is the directory c of the
+   project (c = [] : the project root itself); SAbove d: relative to a working directory from which the project root is
+   reached through the directories d *)
+Inductive spelling := SAbs | SInside (c : list string) | SAbove (d : list string).
+
+(* os.path.relpath of the project-relative path p from the project directory c *)
+Fixpoint relpath (c p : list string) : list string :=
+  match c, p with
+  | x :: c', y :: p' => if String.eqb x y then relpath c' p' else repeat ".."%string (List.length c) ++ p
+  | [], _ => p
+  | _, [] => repeat ".."%string (List.length c)
+  end.
+
+Definition spelled (sp : spelling) (p : list string) : list string :=
+  match sp with SAbs => p | SInside c => relpath c p | SAbove d => d ++ p end.
+
+(* the path IgnoreDirectiveParser.is_ignored matches against the patterns: file_path.relative_to(project_root) when that
+   works (absolute spelling), else str(file_path) -- for a file found by the walk that is the target as spelled joined
+   with the part of the path below the target *)
+(* Gen.ignore_rerooted: the source re-roots such a path at the project itself (shape of proposed_fixes/C14-ignore-reroot.diff);
+   the flag then describes nothing any more *)
+Definition cwd_spelling_matters (q : cquirks) : bool := q_ignore_cwd_spelling q && negb ignore_rerooted.
+
+Definition chk_dir (q : cquirks) (sp : spelling) (rel p : list string) : list string :=
+  if cwd_spelling_matters q
+  then match sp with SAbs => p | _ => spelled sp rel ++ skipn (List.length rel) p end
+  else p.
+
+Definition chk_file (q : cquirks) (sp : spelling) (p : list string) : list string :=
+  if cwd_spelling_matters q then spelled sp p else p.
 
 (* ------------------------------------------------------------------ inputs *)
 (* Paths are lists of components relative to the project root.  c_abs = the components that the
@@ -130,32 +164,40 @@ Definition is_ignored (q : cquirks) (pats : list string) (p : list string) : boo
   is_ignored_core (matches q) (pjoin p) pats.
 
 (* ------------------------------------------------------------------ lint_file and the runs *)
-(* pats = the repository patterns, loaded once when the Orchestrator is created *)
-Definition gate_fires (q : cquirks) (abs : list string) (pats : list string) (p : list string) (g : gate) : bool :=
+(* pats = the repository patterns, loaded once when the Orchestrator is created; cp p = the path is_ignored matches *)
+Definition gate_fires (q : cquirks) (abs : list string) (pats : list string) (cp : list string -> list string) (p : list string) (g : gate) : bool :=
   match g with
   | GHard => gate_hard q (q_excl_above_root q) abs p
   | GHardAbs => gate_hard q true abs p
-  | GIgnored => is_ignored q pats p
+  | GIgnored => is_ignored q pats (cp p)
   | GOther => false
   end.
 
 (* does lint_file hand the file to the rules? *)
-Definition linted (q : cquirks) (abs : list string) (pats : list string) (p : list string) : bool :=
-  negb (existsb (gate_fires q abs pats p) lint_gates).
+Definition linted (q : cquirks) (abs : list string) (pats : list string) (cp : list string -> list string) (p : list string) : bool :=
+  negb (existsb (gate_fires q abs pats cp p) lint_gates).
 
-(* lint_directory(root / rel, recursive) : the project-relative paths of the files that reach the rules.
+(* lint_directory(target, recursive) : the project-relative paths of the files that reach the rules.
    seq_collect_recursive / par_collect_recursive (Gen) = the `recursive` value the entry point hands to _collect_files_fast *)
-Definition run_dir (q : cquirks) (recursive : bool) (abs rel : list string) (t : tree) (s : sources) : list (list string) :=
+Definition run_dir (q : cquirks) (recursive : bool) (abs : list string) (sp : spelling) (rel : list string) (t : tree) (s : sources) : list (list string) :=
   let pats := load_patterns q s in
-  filter (linted q abs pats) (walk (seq_collect_recursive recursive) rel t).
+  filter (linted q abs pats (chk_dir q sp rel)) (walk (seq_collect_recursive recursive) rel t).
 
-(* lint_directory_parallel(root / rel, recursive): collect, then lint_file per collected path (in a worker that builds
+(* lint_directory_parallel(target, recursive): collect, then lint_file per collected path (in a worker that builds
    its own Orchestrator for the same root and config, or in the sequential fallback below 2 x workers files) *)
-Definition run_dir_par (q : cquirks) (recursive : bool) (abs rel : list string) (t : tree) (s : sources) : list (list string) :=
+Definition run_dir_par (q : cquirks) (recursive : bool) (abs : list string) (sp : spelling) (rel : list string) (t : tree) (s : sources) : list (list string) :=
   let pats := load_patterns q s in
-  filter (linted q abs pats) (walk (par_collect_recursive recursive) rel t).
+  filter (linted q abs pats (chk_dir q sp rel)) (walk (par_collect_recursive recursive) rel t).
 
 (* lint_files(paths) *)
-Definition run_files (q : cquirks) (abs : list string) (s : sources) (ps : list (list string)) : list (list string) :=
+Definition run_files (q : cquirks) (abs : list string) (sp : spelling) (s : sources) (ps : list (list string)) : list (list string) :=
   let pats := load_patterns q s in
-  filter (linted q abs pats) ps.
+  filter (linted q abs pats (chk_file q sp)) ps.
+
+(* execute_linting_on_paths (src/cli/utils.py): the paths that are files go through lint_files in one call, then every
+   path that is a directory through lint_directory / lint_directory_parallel (shape checked by Gen.cli_paths_shape_checked) *)
+Definition run_paths (q : cquirks) (recursive parallel : bool) (abs : list string) (sp : spelling) (s : sources)
+           (files : list (list string)) (dirs : list (list string * tree)) : list (list string) :=
+  run_files q abs sp s files
+  ++ flat_map (fun d => if parallel then run_dir_par q recursive abs sp (fst d) (snd d) s
+                        else run_dir q recursive abs sp (fst d) (snd d) s) dirs.
